@@ -5,7 +5,7 @@ import (
 	"sync"
 )
 
-//verif:entry property=C07 tier=both bounds="one Sequential handler (enter; yield; exit; the first invocation may panic), optionally behind a Once handler, and G concurrent synchronous publishers of one event each (typed or through Publish[any]); every interleaving within the preemption bound" cover="done" G_quick=2 G_thorough=3 preempt_quick=2 preempt_thorough=3 race=on
+//verif:entry property=C07 tier=both bounds="one Sequential handler (enter; yield; exit; the first invocation may panic), optionally behind a Once handler, and G concurrent synchronous publishers of one event each (typed or through Publish[any]), whose contexts the running invocation may cancel; every interleaving within the preemption bound" cover="done" G_quick=2 G_thorough=3 preempt_quick=2 preempt_thorough=3 race=on
 func harnessC07NoOverlapSync() {
 	G := vParam("G", 2)
 	bus := New()
@@ -18,6 +18,14 @@ func harnessC07NoOverlapSync() {
 		// a one-shot handler registered in front of it (retired by whichever publisher fires it)
 		Subscribe(bus, func(e evA) {}, Once())
 	}
+	// the running invocation cancels the contexts of all publishers (those still waiting
+	// for their turn included): waiting must not end in an unprotected invocation
+	cancelOthers := vBool()
+	ctxs := make([]context.Context, G)
+	cancels := make([]context.CancelFunc, G)
+	for g := 0; g < G; g++ {
+		ctxs[g], cancels[g] = context.WithCancel(context.Background())
+	}
 	Subscribe(bus, func(e evA) {
 		mu.Lock()
 		inside++
@@ -25,6 +33,11 @@ func harnessC07NoOverlapSync() {
 			maxInside = inside
 		}
 		mu.Unlock()
+		if cancelOthers {
+			for _, c := range cancels {
+				c()
+			}
+		}
 		vYield()
 		mu.Lock()
 		inside--
@@ -45,22 +58,39 @@ func harnessC07NoOverlapSync() {
 		go func() {
 			defer wg.Done()
 			if viaAny {
-				Publish[any](bus, evA{N: n})
+				PublishContext[any](bus, ctxs[n], evA{N: n})
 			} else {
-				Publish(bus, evA{N: n})
+				PublishContext(bus, ctxs[n], evA{N: n})
 			}
 		}()
 	}
 	wg.Wait()
 	vAssert(maxInside <= 1, "sequential-invocations-never-overlap")
-	vAssert(count == G, "every-event-delivered")
 	for g := 0; g < G; g++ {
-		vAssert(seen[g] == 1, "each-event-exactly-once")
+		if cancelOthers {
+			vAssert(seen[g] <= 1, "each-event-exactly-once") // a publish cancelled before its turn may be skipped
+		} else {
+			vAssert(seen[g] == 1, "each-event-exactly-once")
+		}
+	}
+	if !cancelOthers {
+		vAssert(count == G, "every-event-delivered")
+	}
+	for _, c := range cancels {
+		c()
 	}
 	vCover("done")
 }
 
-//verif:entry property=C07 tier=both bounds="one Async+Sequential handler (enter; yield; exit), K events published one after another by one goroutine; every interleaving of the dispatch goroutines within the preemption bound" cover="done" K_quick=2 K_thorough=3 preempt_quick=2 preempt_thorough=2 race=on
+// c07AsyncSequential: the two options in either order (the combination is what is documented).
+func c07AsyncSequential(swapped bool) []SubscribeOption {
+	if swapped {
+		return []SubscribeOption{Sequential(), Async()}
+	}
+	return []SubscribeOption{Async(), Sequential()}
+}
+
+//verif:entry property=C07 tier=both bounds="one Async+Sequential handler (options in either order; enter; yield; exit), K events published one after another by one goroutine; every interleaving of the dispatch goroutines within the preemption bound" cover="done" K_quick=2 K_thorough=3 preempt_quick=2 preempt_thorough=2 race=on
 func harnessC07AsyncOrder() {
 	K := vParam("K", 2)
 	bus := New()
@@ -79,7 +109,7 @@ func harnessC07AsyncOrder() {
 		mu.Lock()
 		inside--
 		mu.Unlock()
-	}, Async(), Sequential())
+	}, c07AsyncSequential(vBool())...)
 	for i := 0; i < K; i++ {
 		Publish(bus, evA{N: i})
 	}
